@@ -26,13 +26,41 @@ import (
 
 // Shared machinery of the schedule scenarios C21 and C29 (engine E3 of DESIGN.md):
 //
-//   - mcBubble: a testing/synctest bubble reachable from the worker binary (the
-//     parked *testing.T of c28_time.go is reused),
+//   - mcBubble: a testing/synctest bubble reachable from the worker binary (a
+//     parked *testing.T as in c28_time.go),
 //   - fakeSource: a complete capture.SourceZeroCopy whose behaviour is the one of
 //     the production source (slimcap afring) as far as process() can observe it,
 //     and whose blocking points are scheduling seams owned by the scenario,
 //   - a packet alphabet with hand-written expectations, a collecting write-out
 //     handler and a log sink that records reported capture errors.
+
+var (
+	mcTOnce sync.Once
+	mcT     *testing.T
+)
+
+// mcTestingT returns a parked *testing.T for testing/synctest, obtained the way
+// c28_time.go does it (testing.Main running one test that publishes its T and
+// never returns) but without C28's time-zone tables, which take about a second
+// to build per worker process. If C28's setup already ran in this process its T
+// is reused.
+func mcTestingT() *testing.T {
+	mcTOnce.Do(func() {
+		if c28T != nil {
+			mcT = c28T
+			return
+		}
+		ready := make(chan struct{})
+		go testing.Main(func(string, string) (bool, error) { return true, nil },
+			[]testing.InternalTest{{Name: "mcbubble", F: func(t *testing.T) {
+				mcT = t
+				close(ready)
+				select {}
+			}}}, nil, nil)
+		<-ready
+	})
+	return mcT
+}
 
 // mcBubble runs f as the main goroutine of a fresh bubble. A panic inside f is
 // recovered inside the bubble (tRunner would otherwise kill the process) and
@@ -40,7 +68,7 @@ import (
 // (Abort, harness errors) keep their meaning. A bubble that cannot end because
 // goroutines stay blocked is reported as leak (the runtime's deadlock panic).
 func mcBubble(f func()) (leak string) {
-	c28Setup("")
+	t := mcTestingT()
 	var pv any
 	var stack string
 	func() {
@@ -49,7 +77,7 @@ func mcBubble(f func()) (leak string) {
 				leak = fmt.Sprint(e)
 			}
 		}()
-		synctest.Test(c28T, func(*testing.T) {
+		synctest.Test(t, func(*testing.T) {
 			defer func() {
 				if e := recover(); e != nil {
 					pv, stack = e, string(debug.Stack())
@@ -598,7 +626,7 @@ const mcReqField = "verif_req"
 
 // mcSetup (Scenario.Setup): parked testing.T for the bubbles, logger into the sink.
 func mcSetup(string) {
-	c28Setup("")
+	mcTestingT()
 	mcLogOnce.Do(func() {
 		// Init drops the cached global logger; the default installed right after is what gets cached next.
 		if _, err := logging.Init(slog.LevelError, logging.EncodingLogfmt, logging.WithOutput(&bytes.Buffer{})); err != nil {
